@@ -320,8 +320,8 @@ class C19(PropBase):
                 # same-named classes are different classes: each product keeps its own defaults and flags
                 sess.__dict__.setdefault("_c19_keep", []).append(out.value)  # (earlier products stay alive)
                 got = _try(lambda: [out.value().y, out.value.__dataclass_params__.frozen, out.value is not target,
-                                    sum(1 for k in sess._c19_keep if k is out.value)])
-                want = ("ok", [step.get("default", "y"), bool(step.get("frozen")), True, 1])
+                                    sum(1 for k in sess._c19_keep if k is out.value), out.value.__qualname__, out.value.__module__, repr(out.value(3))])
+                want = ("ok", [step.get("default", "y"), bool(step.get("frozen")), True, 1, target.__qualname__, target.__module__, repr(target(3))])
                 if got != want:
                     sess.violation("twin-mismatch", i, {"aspect": "factory-product", "slotted": _r(got), "twin": _r(want)}, sig="twin-mismatch:factory-product")
             sess.decolog.append(("factory", "good", out.ok))
